@@ -474,6 +474,13 @@ def rule_dynamic_ports(run):
         calls = [c for c in calls_in(init.node) if isinstance(c.func, ast.Attribute) and c.func.attr == "_discard_dynamic_ports"]
         ok = len(calls) == 1 and calls[0].lineno < crt[0].lineno
         run.ob(ok, "Entity.__init__", file=ctx.rel, line=init.node.lineno, detail="restore-before-snapshot", expected="ports of an earlier build are removed before the new snapshot is taken", found="ok" if ok else "order changed / missing")
+        # the snapshot describes the STATIC interface: it is taken before the architecture (which adds the dynamic ports) runs
+        arch = [c for c in calls_in(init.node) if isinstance(c.func, ast.Attribute) and c.func.attr == "architecture"]
+        if not arch:
+            raise AnalysisError("anchor vanished: info.architecture(...) call in Entity.__init__")
+        ok = all(crt[0].lineno < c.lineno for c in arch)
+        run.ob(ok, "Entity.__init__", file=ctx.rel, line=crt[0].lineno, detail="snapshot-before-architecture", expected="the snapshot is taken before info.architecture(...) adds dynamic ports",
+               found="ok" if ok else "taken after the architecture ran: dynamic ports count as static and survive into the next build")
     # the consumer: deletes every port not in the snapshot, then clears the snapshot
     dels = [d for d in walk_local(ddp.node) if isinstance(d, ast.Delete) and any("ports[" in src(t) for t in d.targets)]
     ok = False
